@@ -9,7 +9,7 @@ refactorings then do not change the verdict.  Nothing here runs griddle code.
 View policies (see `VIEWS`):
   leaf     private free functions / associated functions without a split-table receiver (pure fragments)
   private  every module-private function (also private methods of the split table), callers first
-  module   additionally every function that is not exported and only called from its own source module, whatever its visibility
+  module   additionally every function that is not exported and only called from its own top-level module (and its submodules), whatever its visibility
            (`pub(crate)` helpers in a private submodule)
 A function is never inlined when it is recursive, not private, a closure, or creates closures while it has
 more than one call site (the closure body would then have two creation sites and capture resolution would be ambiguous).
@@ -53,6 +53,11 @@ def module_of(raw):
             break
         out.append(x)
     return "::".join(out)
+
+
+def family_of(raw):
+    """the top-level module a body belongs to (griddle::raw::util -> griddle::raw): helpers may live in private submodules"""
+    return "::".join(module_of(raw).split("::")[:2])
 
 
 def _map_place(pl, lo):
@@ -162,7 +167,134 @@ def inline_call(caller, bb, callee):
     caller["blocks"].extend(new_blocks)
     caller["blocks"][bb]["term"] = {"k": "goto", "target": bo, "span": t["span"], "inlined": callee["path"]}
     caller.setdefault("inlined", []).append(callee["path"])
-    _fold_bound_constants(caller, range(bo, len(caller["blocks"])))
+    end = len(caller["blocks"])
+    _fold_bound_constants(caller, range(bo, end))
+    if t.get("dest") is not None and not t["dest"]["proj"] and t.get("target") is not None:
+        _thread_constant_returns(caller, range(bo, end), lo, t["dest"]["local"], t["target"])
+
+
+VARIANT_INDEX = {("core::option::Option", "None"): 0, ("core::option::Option", "Some"): 1,
+                 ("core::result::Result", "Ok"): 0, ("core::result::Result", "Err"): 1}
+
+
+def _thread_constant_returns(raw, blocks, ret0, dest, T, max_dups=40):
+    """Jump threading for an inlined helper that returns a constant bool / a freshly built Option or Result on some of its paths and
+    whose caller immediately branches on the result: the path that returns `false` continues at the caller's `false` arm.  The
+    caller's test block (and the short goto/drop chain leading to it) is duplicated per constant-returning path (tail duplication:
+    behaviour preserving); without this the two facts `helper took its None arm` and `caller sees false` are unrelated in the CFG."""
+    B = raw["blocks"]
+    tt = B[T]["term"]
+    if tt["k"] != "switch" or tt["discr"]["k"] not in ("copy", "move") or tt["discr"]["place"]["proj"]:
+        return
+    ld = tt["discr"]["place"]["local"]
+    mode = None
+    if ld == dest:
+        mode = "bool"
+    for st in B[T]["stmts"]:
+        if st["k"] == "assign" and not st["place"]["proj"] and st["place"]["local"] == ld:
+            rv = st["rv"]
+            if rv["k"] == "discr" and not rv["place"]["proj"] and rv["place"]["local"] == dest:
+                mode = "discr"
+            elif rv["k"] == "use" and rv["op"]["k"] in ("copy", "move") and not rv["op"]["place"]["proj"] and rv["op"]["place"]["local"] == dest:
+                mode = "bool"
+            else:
+                mode = None
+    if mode is None:
+        return
+
+    def assigns(blk, local):
+        for st in blk["stmts"]:
+            if st["k"] in ("assign", "set_discr") and st["place"]["local"] == local:
+                return True
+        t2 = blk["term"]
+        return t2["k"] == "call" and "dest" in t2 and t2["dest"]["local"] == local
+    dups = 0
+    for P in list(blocks):
+        val = None
+        for st in B[P]["stmts"]:
+            if st["k"] in ("assign", "set_discr") and st["place"]["local"] == ret0:
+                val = None
+                if st["k"] == "assign" and not st["place"]["proj"]:
+                    rv = st["rv"]
+                    if mode == "bool" and rv["k"] == "use" and rv["op"]["k"] == "const" and rv["op"].get("val") in (0, 1):
+                        val = rv["op"]["val"]
+                    elif mode == "discr" and rv["k"] == "aggregate" and (rv.get("adt"), rv.get("variant")) in VARIANT_INDEX:
+                        val = VARIANT_INDEX[(rv.get("adt"), rv.get("variant"))]
+        if val is None:
+            continue
+        tp = B[P]["term"]
+        if tp["k"] not in ("goto", "drop"):
+            continue
+        # the region between P and the caller's test: a small acyclic set of blocks of the inlined body, none of which writes the
+        # return place, all of whose ways out lead to T (drop-flag switches of the helper's locals are typical)
+        region, order, okr = set(), [], True
+        work = [tp["target"]]
+        while work and okr:
+            x = work.pop()
+            if x == T or x in region:
+                continue
+            if x not in blocks or x == P or len(region) >= 8 or _writes(B[x], ret0):
+                okr = False
+                break
+            tx = B[x]["term"]
+            if tx["k"] == "goto":
+                nx = [tx["target"]]
+            elif tx["k"] == "drop":
+                nx = [tx["target"]]
+            elif tx["k"] == "switch":
+                nx = [tb for _, tb in tx["targets"]] + [tx["otherwise"]]
+            elif tx["k"] == "unreachable":
+                nx = []
+            else:
+                okr = False
+                break
+            region.add(x)
+            order.append(x)
+            work.extend(nx)
+        if not okr or dups >= max_dups:
+            continue
+        # acyclic?
+        def reach(a, seen):
+            tx = B[a]["term"]
+            nx = [tx["target"]] if tx["k"] in ("goto", "drop") else ([tb for _, tb in tx["targets"]] + [tx["otherwise"]] if tx["k"] == "switch" else [])
+            for y in nx:
+                if y in region and y not in seen:
+                    seen.add(y)
+                    reach(y, seen)
+            return seen
+        if any(x in reach(x, set()) for x in region):
+            continue
+        dups += 1
+        new_ids = {}
+        for c in order + [T]:
+            new_ids[c] = len(B)
+            B.append(copy.deepcopy(B[c]))
+        for c in order:
+            tn = B[new_ids[c]]["term"]
+            if tn["k"] in ("goto", "drop"):
+                tn["target"] = new_ids.get(tn["target"], tn["target"])
+            elif tn["k"] == "switch":
+                tn["targets"] = [[v, new_ids.get(tb, tb)] for v, tb in tn["targets"]]
+                tn["otherwise"] = new_ids.get(tn["otherwise"], tn["otherwise"])
+        tg = [tb for v, tb in tt["targets"] if v == val]
+        B[new_ids[T]]["term"] = {"k": "goto", "target": tg[0] if tg else tt["otherwise"], "span": tt["span"], "threaded": val}
+        B[P]["term"] = dict(tp, target=new_ids.get(tp["target"], tp["target"]))
+
+
+def _writes(blk, local):
+    for st in blk["stmts"]:
+        if st["k"] in ("assign", "set_discr") and st["place"]["local"] == local:
+            return True
+    t2 = blk["term"]
+    return t2["k"] == "call" and "dest" in t2 and t2["dest"]["local"] == local
+
+
+def _only_copies_ret(blk, ret0, dest):
+    """the block touches the helper's return place only to copy it into the call's destination"""
+    for st in blk["stmts"]:
+        if st["k"] in ("assign", "set_discr") and st["place"]["local"] == ret0:
+            return False
+    return True
 
 
 def _fold_bound_constants(raw, blocks):
@@ -249,11 +381,69 @@ def _creates_closure(raw):
     return False
 
 
+def _nested_closures(raws, r):
+    kids = [x for x in raws if x.get("parent") == r["dpath"] and x["kind"] == "Closure"]
+    return any(_creates_closure(k) for k in kids)
+
+
+def _retype(node, tymap):
+    """replace type ids in a copied fragment of the fact tree"""
+    if isinstance(node, dict):
+        for k, v in list(node.items()):
+            if k == "ty" and isinstance(v, int) and v in tymap:
+                node[k] = tymap[v]
+            else:
+                _retype(v, tymap)
+    elif isinstance(node, list):
+        for x in node:
+            _retype(x, tymap)
+
+
+def _clone_closures(d, raws, caller, callee, first_block, first_local, counter):
+    """Give the copy of `callee` that was just spliced into `caller` its own copies of the closures the callee creates, so that every
+    closure body has exactly one creation site (capture resolution stays unambiguous when a helper is inlined at several sites)."""
+    types = d["types"]
+    kids = [x for x in raws if x.get("parent") == callee["dpath"] and x["kind"] == "Closure"]
+    if not kids:
+        return
+    for k in kids:
+        counter[0] += 1
+        newdef = "%s#inl%d" % (k["dpath"], counter[0])
+        k2 = copy.deepcopy(k)
+        k2["dpath"] = newdef
+        k2["path"] = "%s#inl%d" % (k["path"], counter[0])
+        k2["parent"] = caller["dpath"]
+        k2["cloned_from"] = k["dpath"]
+        raws.append(k2)
+        tymap = {}
+        for tid, t in enumerate(list(types)):
+            if t.get("k") == "closure" and t.get("def") == k["dpath"]:
+                t2 = dict(t, **{"def": newdef})
+                types.append(t2)
+                tymap[tid] = len(types) - 1
+        for tid, t in enumerate(list(types)):
+            if t.get("k") in ("ref", "ptr") and t.get("inner") in tymap:
+                types.append(dict(t, inner=tymap[t["inner"]]))
+                tymap[tid] = len(types) - 1
+        for blk in caller["blocks"][first_block:]:
+            _retype(blk, tymap)
+            for st in blk["stmts"]:
+                if st["k"] == "assign" and st["rv"]["k"] == "aggregate" and st["rv"].get("agg") == "closure" and st["rv"].get("def") == k["dpath"]:
+                    st["rv"]["def"] = newdef
+        for l in caller["locals"][first_local:]:
+            if l["ty"] in tymap:
+                l["ty"] = tymap[l["ty"]]
+        # the closure's own first parameter is the closure (or a reference to it)
+        _retype(k2["locals"], tymap)
+
+
 def build_view(facts, policy, roles=None, max_rounds=6, protect=()):
     """Return (Facts of the view, list of (caller, callee) inlined) or (None, []) if nothing was inlined."""
     d = dict(facts.raw)
     raws = copy.deepcopy(facts.raw["bodies"])
     d["bodies"] = raws
+    d["types"] = list(facts.raw["types"])
+    clone_counter = [0]
     T = facts.types
     fnvals = _fn_values(facts)
     # functions used as values, per module of the using body (a function handed out of its module as a value is part of its interface)
@@ -268,9 +458,8 @@ def build_view(facts, policy, roles=None, max_rounds=6, protect=()):
             for o in ops:
                 if isinstance(o, dict) and o.get("k") == "const" and o.get("fn"):
                     for r2 in facts.raw["bodies"]:
-                        if strip_generics(r2["path"]) == strip_generics(o["fn"]) and module_of(r2) != module_of(r) \
-                                and not module_of(r).startswith(module_of(r2) + "::"):
-                            fnvals_outside[module_of(r2)].add(strip_generics(r2["path"]))
+                        if strip_generics(r2["path"]) == strip_generics(o["fn"]) and family_of(r2) != family_of(r):
+                            fnvals_outside[family_of(r2)].add(strip_generics(r2["path"]))
 
     def has_split_receiver(r):
         if roles is None or r["arg_count"] < 1:
@@ -310,10 +499,9 @@ def build_view(facts, policy, roles=None, max_rounds=6, protect=()):
             """not exported, and every caller lives in the same source module (a helper of that module, whatever its visibility)"""
             if r["kind"] not in ("Fn", "AssocFn") or r.get("exported") or r.get("vis") == "pub":
                 return False
-            m = module_of(r)
+            m = family_of(r)
             cs = callers_of.get(r["path"], set())
-            return bool(cs) and all(module_of(by_path[p]) == m or module_of(by_path[p]).startswith(m + "::") for p in cs) \
-                and strip_generics(r["path"]) not in fnvals_outside.get(m, set())
+            return bool(cs) and all(family_of(by_path[p]) == m for p in cs) and strip_generics(r["path"]) not in fnvals_outside.get(m, set())
 
         def eligible(c):
             r = by_path[c]
@@ -328,8 +516,8 @@ def build_view(facts, policy, roles=None, max_rounds=6, protect=()):
                 return False
             if policy == "leaf" and has_split_receiver(r):
                 return False
-            if _creates_closure(r) and sites[c] > 1:
-                return False
+            if _creates_closure(r) and sites[c] > 1 and _nested_closures(raws, r):
+                return False      # closures that create closures are not cloned
             return True
         # inline only callees that themselves contain no further eligible calls (innermost first), so copies are final
         elig = {c for c in by_path if c in sites and eligible(c)}
@@ -341,7 +529,10 @@ def build_view(facts, policy, roles=None, max_rounds=6, protect=()):
             caller = by_path[p]
             for bb, c in es:
                 if c in ready and c != p:
+                    fb, fl = len(caller["blocks"]), len(caller["locals"])
                     inline_call(caller, bb, by_path[c])
+                    if sites[c] > 1 and _creates_closure(by_path[c]):
+                        _clone_closures(d, raws, caller, by_path[c], fb, fl, clone_counter)
                     done.append((p, c))
                     changed = True
         if not changed:
